@@ -58,7 +58,9 @@ Check(ev, prev) ==
       \* (each entity gets at most one request), the others lapse
       li == SelectSeq(ops, LAMBDA o : o.o = "lazyins")
       reqs == UNION {SeqToSet(li[k].items) : k \in 1..Len(li)}
-      wantComps == {r \in reqs : r[1] \in wantAlive}
+      \* ... and so has every insertion a lazy action queued, while maintain ran, for an entity it had just created
+      nested == IF "lazy_nested" \in DOMAIN ev THEN SeqToSet(ev.lazy_nested) ELSE {}
+      wantComps == {r \in reqs : r[1] \in wantAlive} \cup nested
       jo == SelectSeq(ops, LAMBDA o : o.o = "join")
       lz == SelectSeq(ops, LAMBDA o : o.o = "lazy")
       queued == [k \in 1..Len(lz) |-> lz[k].tag]
@@ -96,7 +98,7 @@ Check(ev, prev) ==
         THEN {F("C10", "an entity created by a lazy action collides with another handle", ev.lazy_created),
               F("C01", "an entity created by a lazy action collides with another handle", ev.lazy_created)} ELSE {})
   \cup (IF "comps" \in DOMAIN ev.after /\ SeqToSet(ev.after.comps) # wantComps
-        THEN {F("C10", "lazily queued batch insertions: a request for an entity that is alive after maintain was lost, or a lapsed one applied (got, expected)", <<ev.after.comps, wantComps>>)} ELSE {})
+        THEN {F("C10", "lazily queued insertions: a request for an entity that is alive after maintain was lost, or a lapsed one applied (got, expected)", <<ev.after.comps, wantComps>>)} ELSE {})
   \cup (IF ev.after.join # SortedById(wantAlive)
         THEN {F("C10", "after maintain: entities join (got, expected)", <<ev.after.join, SortedById(wantAlive)>>)} ELSE {})
   \cup {F("C10", "a join during the run missed a live entity or yielded an unknown handle", jo[k].hs)
